@@ -1,5 +1,8 @@
 //! Implementation of logic behind the expression language.
 
+#[cfg(rfsm_verif)]
+use crate::verif_seams::collections::HashMap;
+#[cfg(not(rfsm_verif))]
 use std::collections::HashMap;
 use std::fmt::Debug;
 use std::ops::{Deref, DerefMut};
